@@ -14,7 +14,7 @@ boundary mode, ellipticity of the transformed coefficients (C03 `ellipticity`) a
 angular spacing.
 -/
 namespace C10h
-open Cycle Concrete Stencil GridGen GridGenL Grid
+open MGCycle Concrete Stencil GridGen GridGenL Grid
 
 section
 variable {K : Type} [Scalar K]
